@@ -105,6 +105,25 @@ def make_msg(data, as_file=False, tags=0):
     return msg
 
 
+def reorder_subs(spec, order):
+    """PS3.8 Annex D does not order the user-information sub-items: Maximum Length first (what most toolkits write),
+    behind Implementation Class UID / Version Name, or in the middle."""
+    extra = [{'t': 0x52, 'r': 0, 'uid': '1.2.826.0.1.3680043.9.77.1'}, {'t': 0x55, 'r': 0, 'name': 'PEER_1'}]
+    items = []
+    for it in spec['items']:
+        if it['t'] == 0x50:
+            mx = [s_ for s_ in it['subs'] if s_['t'] == 0x51]
+            rest = [s_ for s_ in it['subs'] if s_['t'] != 0x51]
+            subs = {0: mx + extra + rest, 1: extra + rest + mx, 2: extra[:1] + mx + extra[1:] + rest}[order]
+            it = dict(it, subs=subs)
+        items.append(it)
+    return dict(spec, items=items)
+
+
+def sub_order(L, P):
+    return (L % 7 + P % 5 + (L > P)) % 3
+
+
 def run_acceptor_case(L, P, lengths, via_hook=False, entity='AE'):
     """via_hook: the entity is configured with 65536 and its on_association_request hook gives this association
     its own limit L (a per-peer limit, set on the association object the hook receives)."""
@@ -138,7 +157,7 @@ def run_acceptor_case(L, P, lengths, via_hook=False, entity='AE'):
         ae.add_scp(service)
 
         def plan(dul):
-            dul.push_pdu(fd.rq_spec([(1, SOP, [TS])], P))
+            dul.push_pdu(reorder_subs(fd.rq_spec([(1, SOP, [TS])], P), sub_order(L, P)))
             for i in range(len(datas)):
                 dul.push_msg({0x0002: SOP, 0x0100: 0x0020, 0x0110: i, 0x0700: 0}, b'\x08\x00\x52\x00\x06\x00\x00\x00STUDY ', 1)
         acc, fac, exc = fd.run_acceptor(ae, [plan])
@@ -184,7 +203,7 @@ def run_requestor_case(L, P, lengths, entity='ClientAE'):
     def responder(dul, rec):
         if rec['kind'] == 'pdu' and rec['spec'].get('t') == 1:
             ids = [it['id'] for it in rec['spec']['items'] if it['t'] == 0x20]
-            return [fd.incoming_pdu(fd.ac_spec([(i, 0, TS) for i in ids], P))]
+            return [fd.incoming_pdu(reorder_subs(fd.ac_spec([(i, 0, TS) for i in ids], P), sub_order(L, P)))]
         if rec['kind'] == 'pdu' and rec['spec'].get('t') == 5:
             return [fd.incoming_pdu({'t': 6, 'r1': 0, 'r2': 0})]
         return []
